@@ -9,6 +9,13 @@ FAMILIES = {
         'quick':    dict(consts=dict(N=5, MaxKids=4, MinHi=0), invariants=tlc.GEN_INVARIANTS + tlc.SEM_INVARIANTS),
         'thorough': dict(consts=dict(N=6, MaxKids=4, MinHi=0), invariants=tlc.GEN_INVARIANTS + tlc.SEM_INVARIANTS),
     },
+    # random larger models (seeded walks): up to 12 features, every relation kind, one or two constraints
+    'Big': {
+        'quick':    dict(consts=dict(N=12, MaxKids=4, MinHi=0, AllowStar=True, Axes={'ctc'}, MaxCtc=2, CtcDepth=1, CtcBinOps=LOGIC_BIN,
+                                     CtcMinFeatures=8), invariants=tlc.GEN_INVARIANTS, simulate=dict(num=150, depth=12)),
+        'thorough': dict(consts=dict(N=12, MaxKids=4, MinHi=0, AllowStar=True, Axes={'ctc'}, MaxCtc=2, CtcDepth=1, CtcBinOps=LOGIC_BIN,
+                                     CtcMinFeatures=8), invariants=tlc.GEN_INVARIANTS, simulate=dict(num=3000, depth=12)),
+    },
     # the same with [lo..*] relations (UVL)
     'TreeStar': {
         'quick':    dict(consts=dict(N=4, MaxKids=3, MinHi=0, AllowStar=True), invariants=tlc.GEN_INVARIANTS),
